@@ -6,7 +6,11 @@
                   {reload, append + reload, session (dead outputs, recompaction) + reload, restat of a subset (+ explicit
                   recompaction)}; multi-session chains crossing the 100-lines / 3x threshold; header variants; garbage
  oracle         : python only (never the model): fold over the complete lines of the same bytes; record-level
-                  bookkeeping for appends after a tear (safe direction), sessions, restat, versions."""
+                  bookkeeping for appends after a tear (safe direction), sessions, restat, versions.
+ history        : "append after a torn tail merges two records" was found by this check and FIXED in the tree (6375e7b: a
+                  newline is written before the first append); the old shapes are violations again.  The classifier for
+                  the known-finding id is kept for the case the defect returns and is listed.  MODEL_HAS_NEWLINE_FIX
+                  says whether BuildLogDefs.record_append already has that newline."""
 import collections, json, os, random, re, shutil, subprocess, tempfile, threading
 from concurrent.futures import ThreadPoolExecutor
 import vlib
@@ -19,17 +23,25 @@ TRUSTED = ['Coq 8.16.1 kernel (coqc); Print Assumptions of every Properties_C08 
            'RecordCommand on a real State/Edge (hash = HashCommand of the command), records with a chosen hash through the public WriteEntry + fflush on a second '
            'append-mode stream; needs_recompaction_ (private) is observed as "OpenForWrite recompacts"',
            'the python oracle of this file (fold over complete lines; C prefix-number parsers used only to CLASSIFY the known merged-line finding)',
+           'while MODEL_HAS_NEWLINE_FIX is False: the model lacks the newline OpenForWriteIfNeeded writes before appending to a log whose last line is torn; '
+           'the expected implementation bytes are the model\'s with that one newline inserted (expected_impl_from_model) and the expected table is the model\'s load of those bytes',
            'tmpfs semantics stand for the disk: a torn write is modelled as "an arbitrary prefix of the appended bytes reached the file" (fflush after every record)']
 ASSUMPTIONS = ['output names contain no NUL, tab or newline (ninja paths) and a rendered line (name + at most 63 bytes) is at most 262144 bytes long: a longer line is '
                'dropped whole by LineReader (its output merely looks dirty); the "exactly the complete records" oracle skips such lines, model and implementation are still compared on them',
                'a torn write leaves a prefix of the bytes appended (no reordering, no foreign garbage); other garbage is covered by correspondence + "never an error / no crash" only',
                'safe direction is judged per output on (command hash, mtime): an entry for a real output whose (hash, mtime) pair was never written for it is counted as unsafe '
-               '(RecomputeOutputDirty compares exactly these two fields); timing fields (start/end) are not safety relevant',
+               '(RecomputeOutputDirty compares exactly these two fields). The one accepted exception: a record cut inside its hash field reappears, after the next append, with its '
+               'genuine name/start/end/mtime and a PREFIX of its hash digits (empty prefix = 0): it can only make a non-generator output look out of date',
                'POSIX build; one writer at a time']
 
 B = 262144                      # sizeof(LineReader::buf_)
 HEADER = b'# ninja log v7\n'
 KNOWN_ID = 'append-after-tear-merges-records'
+LISTED = False                  # set by run(): KNOWN_ID is listed in known_findings.txt as a finding (the defect was FIXED in the tree: 6375e7b)
+# The fix (OpenForWriteIfNeeded writes one newline before the first append when the non-empty log does not end in LF) is not yet in
+# BuildLogDefs.record_append.  While False, the implementation's expected bytes are derived from the model's by exactly that rule
+# (see expected_impl_from_model); flip to True when the model has it -- nothing else needs to change.
+MODEL_HAS_NEWLINE_FIX = False
 LONG_ALPHA = bytes(b'abcdefgh /.\xc3\xa9-_01'[i % 17] for i in range(256))
 
 # ------------------------------------------------------------------------------------------------------------------
@@ -121,11 +133,18 @@ def fmt_rec(name, v): return '%r start=%d end=%d mtime=%d hash=%x' % (name, v[0]
 class Verdict:
     def __init__(self): self.bad = []; self.finding = []; self.stats = collections.Counter()
 
-def judge_after_tear(prefix, s2, hist, load, vd, recompacted_expected=False, dead=()):
-    """safe-direction analysis of the table loaded after records were appended to a torn log"""
+def judge_after_tear(prefix, s2, hist, load, vd, fbytes=None, recompacted_expected=False, dead=()):
+    """What a log must look like after records were appended to a torn log (no recompaction in between unless
+    `recompacted_expected`).  OpenForWriteIfNeeded terminates a torn last line with one newline before the first
+    append, so the fragment is a line of its own: with fewer than 4 tabs it is skipped; cut inside the hash (4 tabs) it
+    yields the interrupted record itself with a truncated hash (acceptable: it can only make a non-generator output look
+    out of date).  Every appended record is intact.  Anything else for a real output is a violation -- unless the old
+    "append after a tear merges two records" defect is LISTED as a known finding, in which case exactly the predicted
+    merged-line entry and its side effects (next record lost / stale / wrong start time) are classified as that finding."""
+    listed = LISTED
     if load[0] == 'discard':
-        if len(prefix) > 14 and prefix.startswith(HEADER): vd.bad.append(('discarded', 'a log with an intact signature was discarded after an append'))
-        vd.stats['tear:discarded(all outputs dirty)'] += 1; return
+        if len(prefix) >= (15 if listed else 14): vd.bad.append(('discarded', 'a log with an intact signature was discarded after an append'))
+        vd.stats['tear:signature torn, log discarded after the append (all outputs dirty)'] += 1; return
     if load[0] != 'ok': vd.bad.append(('load-error', 'Load failed: %s' % (load[1],))); return
     T = load[2]
     st, complete, _ = fold_complete(prefix)
@@ -135,40 +154,55 @@ def judge_after_tear(prefix, s2, hist, load, vd, recompacted_expected=False, dea
         exp.update(last_wins(s2))
         if T != exp: vd.bad.append(('session', 'after recompaction + append the table is not "latest record of every live output": ' + diff_tables(exp, T)))
         vd.stats['tear:recompacted'] += 1; return
+    if fbytes is not None and not listed:
+        expb = (prefix + (b'' if prefix.endswith(b'\n') else b'\n') if prefix else HEADER) + b''.join(py_render(r) for r in s2)
+        if fbytes != expb:
+            vd.bad.append(('append', 'appending to a log cut at byte %d must leave prefix + (newline if the last line is torn) + the records: got %r want %r' % (
+                len(prefix), cut(fbytes[max(0, len(prefix) - 30):], 160), cut(expb[max(0, len(prefix) - 30):], 160))))
     latest = last_wins(complete + s2)
     written = collections.defaultdict(set)
     for r in list(hist) + list(s2): written[r.name].add(val(r))
-    merged = py_parse_line(frag + py_render(s2[0])[:-1]) if (s2 and frag) else None
+    tabs = frag.count(b'\t')
+    merged = py_parse_line(frag + py_render(s2[0])[:-1]) if (s2 and frag) else None       # what the old defect produced
     torn_rec = hist[len(complete)] if (frag and len(prefix) > 14 and len(complete) < len(hist)) else None      # the record the tear interrupted
-    eaten = s2[0].name if (s2 and frag.count(b'\t') >= 1) else None     # the record glued to a fragment with >= 1 tab is lost
+    eaten = s2[0].name if (listed and s2 and tabs >= 1) else None       # old defect: the record glued to a fragment with >= 1 tab is lost
+    part = frag.split(b'\t')[4] if tabs == 4 else None
+    renamed = set(r.name for r in s2)
+    def interrupted_self(n, v):
+        return (torn_rec is not None and part is not None and n == torn_rec.name and n not in renamed and v[:3] == val(torn_rec)[:3]
+                and (b'%x' % torn_rec.hash).startswith(part) and v[3] == int(part or b'0', 16))
     for n, v in T.items():
-        if n not in written: vd.stats['tear:garbage-name entry (harmless)'] += 1; continue
+        if n not in written:
+            if listed: vd.stats['tear:garbage-name entry (harmless)'] += 1
+            else: vd.bad.append(('append', 'entry %s for a name that was never recorded' % fmt_rec(n, v)))
+            continue
         if latest.get(n) == v: continue
+        if interrupted_self(n, v):
+            vd.stats['tear:the interrupted record itself, hash %s (acceptable)' % ('complete' if v == val(torn_rec) else 'truncated')] += 1; continue
         if v in written[n]:
-            if torn_rec is not None and n == torn_rec.name and v == val(torn_rec) and frag.count(b'\t') >= 4:
-                vd.stats['tear:the interrupted record itself, complete but for its newline (truthful)'] += 1
-            elif n == eaten: vd.stats['tear:stale entry of the eaten record (safe)'] += 1
+            if n == eaten: vd.stats['tear:stale entry of the eaten record (listed defect)'] += 1
             else: vd.bad.append(('stale', 'output %r keeps an older record (%s) although a later one was written completely' % (n, fmt_rec(n, v))))
             continue
-        if (v[3], v[2]) in {(w[3], w[2]) for w in written[n]}:
-            vd.stats['tear:record intact except timing field (safe)'] += 1; continue
+        if listed and (v[3], v[2]) in {(w[3], w[2]) for w in written[n]}:
+            vd.stats['tear:record intact except timing field (listed defect)'] += 1; continue
         what = 'entry %s: this (hash, mtime) pair was never written for that output (written: %s)' % (
             fmt_rec(n, v), '; '.join(fmt_rec(n, w) for w in sorted(written[n])[:4]) or 'nothing')
         if merged and merged == (n, v):
-            torn = torn_rec.name if torn_rec is not None else None
-            tabs = frag.count(b'\t')
-            newer = all(v[2] > w[2] for w in written[n])
-            rank = 0 if (tabs == 3 and torn != n and newer and torn == frag.split(b'\t')[3]) else 1 if (tabs == 3 and torn != n) else 2 if tabs < 3 else 3
-            vd.finding.append((rank, 'log torn after %r (no newline is written before the next append), next record %r => %s' % (
-                frag[-60:], py_render(s2[0])[:60], what)))
-            vd.stats['tear:merged line gives a real output an unwritten (hash, mtime) [tabs in fragment=%d]' % min(frag.count(b'\t'), 4)] += 1
+            what = 'log torn after %r, next record %r: the two were read as ONE line (no newline before the append) => %s' % (frag[-60:], py_render(s2[0])[:60], what)
+            if listed:
+                torn = torn_rec.name if torn_rec is not None else None
+                newer = all(v[2] > w[2] for w in written[n])
+                rank = 0 if (tabs == 3 and torn != n and newer and torn == frag.split(b'\t')[3]) else 1 if (tabs == 3 and torn != n) else 2 if tabs < 3 else 3
+                vd.finding.append((rank, what))
+                vd.stats['tear:merged line gives a real output an unwritten (hash, mtime) [tabs in fragment=%d]' % min(tabs, 4)] += 1
+            else: vd.bad.append(('safe-direction', what))
         else:
             vd.bad.append(('safe-direction', what))
     for n in latest:
         if n not in T:
-            if n == eaten: vd.stats['tear:eaten record lost (output dirty, safe)'] += 1
-            elif merged and merged[0] != n and False: pass
+            if n == eaten: vd.stats['tear:eaten record lost (listed defect)'] += 1
             else: vd.bad.append(('lost', 'output %r has a completely written record but no entry' % n))
+    if frag and tabs < 4 and len(prefix) >= 15: vd.stats['tear:fragment with < 4 tabs skipped, appended records intact'] += 1
 
 def diff_tables(exp, got):
     d = []
@@ -206,7 +240,7 @@ def oracle(name, octx, line, res, vd):
         elif load[1] != wants_recompaction(total, len(load[2])):
             vd.bad.append(('threshold', 'needs_recompaction=%s for %d complete lines / %d outputs' % (load[1], total, len(load[2]))))
     elif name == 'torn-append':
-        judge_after_tear(data, recs_of(w[2]), recs_of(octx['hist']), load, vd)
+        judge_after_tear(data, recs_of(w[2]), recs_of(octx['hist']), load, vd, fbytes=fbytes)
     elif name == 'torn-session':
         dead = set(unhex(x) for x in w[2].split(',')) if w[2] != '-' else set()
         st, recs, total = fold_complete(data)
@@ -214,7 +248,7 @@ def oracle(name, octx, line, res, vd):
             if load[0] != 'ok' or load[2] != last_wins(recs_of(w[3])): vd.bad.append(('session', 'session after a discarded log is not a fresh log of its records: %s' % res[-200:]))
             return
         rc = wants_recompaction(total, len(last_wins(recs)))
-        judge_after_tear(data, recs_of(w[3]), recs_of(octx['hist']), load, vd, recompacted_expected=rc, dead=dead)
+        judge_after_tear(data, recs_of(w[3]), recs_of(octx['hist']), load, vd, fbytes=fbytes, recompacted_expected=rc, dead=dead)
     elif name in ('restat', 'recompact'):
         st, recs, total = fold_complete(data)
         before = last_wins(recs)
@@ -315,7 +349,41 @@ class Runner:
         if self.model:
             mres, mfails = out['m']
             for idx, rc, err in mfails[:1]: raise RuntimeError('buildlog_run failed (rc=%s) on %s: %s' % (rc, lines[idx][:100], err[-300:]))
+        if mres is not None and not MODEL_HAS_NEWLINE_FIX: mres = self.apply_newline_rule(lines, mres, jobs)
         return ires, mres
+    def model_only(self, lines, jobs=8):
+        res, fails = run_side(['/bin/sh', '-c', 'ulimit -s unlimited 2>/dev/null || ulimit -s $(ulimit -H -s); exec "$0"', self.model], lines, {}, jobs)
+        for idx, rc, err in fails[:1]: raise RuntimeError('buildlog_run failed (rc=%s) on %s: %s' % (rc, lines[idx][:100], err[-300:]))
+        return res
+    def apply_newline_rule(self, lines, mres, jobs):
+        """MODEL_HAS_NEWLINE_FIX = False: turn the model's results into what the implementation must produce (see expected_impl_from_model)"""
+        todo = []
+        for k, l in enumerate(lines):
+            if mres[k] is None: continue
+            nb = expected_impl_from_model(l, mres[k])
+            if nb is not None: todo.append((k, nb))
+        if todo:
+            loads = self.model_only(['load ' + hexs(nb) for k, nb in todo], jobs)
+            mres = list(mres)
+            for (k, nb), lr in zip(todo, loads):
+                flags = split_result(mres[k])[0]
+                mres[k] = ' '.join(flags + [hexs(nb), lr or '?'])
+        return mres
+
+def expected_impl_from_model(line, mline):
+    """The one known difference between model and implementation while MODEL_HAS_NEWLINE_FIX is False: a session that APPENDS to a
+    non-empty log not ending in LF (append; session without discard / recompaction, recognised by: the model's file is the old file
+    followed by exactly the rendered records) first writes one newline.  -> the bytes the implementation must leave, or None when
+    the model's result stands as it is.  The LOAD part is then the model's own load of those bytes."""
+    w = line.split(' ')
+    if w[0] not in ('append', 'session'): return None
+    old = unhex(w[1])
+    if not old or old.endswith(b'\n'): return None
+    flags, mb, lw = split_result(mline)
+    if mb is None or flags: return None
+    n = sum(len(py_render(r)) for r in recs_of(w[-1]))        # generated names contain no NUL: py_render's length is the writer's
+    if not (mb.startswith(old) and len(mb) == len(old) + n): return None
+    return old + b'\n' + mb[len(old):]
 
 def corresponds(op, i, m):
     if i == m: return True
@@ -427,6 +495,8 @@ def run(ctx):
     finally: runner.close()
 
 def _run(ctx, runner):
+    global LISTED
+    LISTED = any(k.get('property') == 'C08' and k.get('id') == KNOWN_ID for k in ctx.known_list)
     totals = dict(evaluations=0, mismatch=0, bad=0, findings=[], stats=collections.Counter(), dist=collections.Counter(), nontrivial=set())
     samples = []
     if ctx.replay:
